@@ -13,6 +13,9 @@ import fcntl
 _lock = open("/tmp/verif-repo.lock", "a+")
 fcntl.flock(_lock, fcntl.LOCK_EX)   # nobody else checks or patches /repo while the patch is applied
 os.environ["VERIF_REPO_LOCK_HELD"] = "1"
+os.environ["VERIF_EVIDENCE_DIR"] = "/tmp/verif-seed-evidence"
+os.environ["VERIF_REPLAY_DIR"] = "/tmp/verif-seed-replays"
+os.makedirs("/tmp/verif-seed-evidence", exist_ok=True); os.makedirs("/tmp/verif-seed-replays", exist_ok=True)
 st = subprocess.run(["git", "-C", "/repo", "status", "--porcelain", "--untracked-files=no"], capture_output=True, text=True).stdout
 assert not st.strip(), "/repo has uncommitted changes"
 r = subprocess.run(["git", "-C", "/repo", "apply", "--whitespace=nowarn", os.path.join(d, "patch.diff")], capture_output=True, text=True)
